@@ -300,6 +300,12 @@ func c20Analyse(res *core.Result, w *workload.SubWorld, s *sched.Sched, pre []in
 			all = append(all, cl)
 		case e.Kind == sched.KStamp && strings.HasPrefix(e.Obj, "return|"):
 			cur[e.Task] = nil
+		case e.Kind == "spawn":
+			// a goroutine the library started works on behalf of the call that
+			// started it: its call-outs belong to that call
+			if id, err := strconv.Atoi(strings.TrimPrefix(e.Obj, "g")); err == nil {
+				cur[id] = cur[e.Task]
+			}
 		case e.Kind == sched.KCallout:
 			cl := cur[e.Task]
 			p := strings.SplitN(e.Obj, "|", 4)
